@@ -582,6 +582,12 @@ func (runInfo *runInfoStruct) runForMapStmt(stmt *ast.ForStmt, value reflect.Val
 func (runInfo *runInfoStruct) runForChanStmt(stmt *ast.ForStmt, value reflect.Value) {
 	var chosen int
 	var ok bool
+	if value.Type().ChanDir()&reflect.RecvDir == 0 {
+		// reflect.Select panics on a receive case with a send-only channel
+		runInfo.err = newStringError(stmt, "receive from send-only channel")
+		runInfo.rv = nilValue
+		return
+	}
 	for {
 		cases := []reflect.SelectCase{{
 			Dir:  reflect.SelectRecv,
@@ -973,6 +979,12 @@ func (runInfo *runInfoStruct) runChanStmt(stmt *ast.ChanStmt) {
 	// rhs is channel
 	// receive from rhs channel
 	rhs := runInfo.rv
+	if rhs.Type().ChanDir()&reflect.RecvDir == 0 {
+		// reflect.Select panics on a receive case with a send-only channel
+		runInfo.err = newStringError(stmt, "receive from send-only channel")
+		runInfo.rv = nilValue
+		return
+	}
 	cases := []reflect.SelectCase{{
 		Dir:  reflect.SelectRecv,
 		Chan: reflect.ValueOf(runInfo.ctx.Done()),
